@@ -597,6 +597,18 @@ fn explore(ctx: &Ctx) -> Outcome {
         })
         .reduce(Tally::new, Tally::merge);
 
+    // family 4: state carried between calls — failing parses right before each case
+    let mut t4 = Tally::new();
+    for idx in util::odometer(6, 3) {
+        let c = Case { fam: "after-failed-calls".into(), hdr: HDRS[idx[0] % 4], specs: idx.iter().map(|i| shape(*i)).collect() };
+        props::poison::failing_calls();
+        let before = t4.violations.len();
+        run_case(&c, &mut t4);
+        for v in t4.violations.iter_mut().skip(before) {
+            v.sig = format!("after-failed-calls:{}", v.sig);
+        }
+    }
+
     // family 3: scale
     let mut t3 = Tally::new();
     for c in scale_cases() {
@@ -636,6 +648,7 @@ fn explore(ctx: &Ctx) -> Outcome {
     let mut total = t1;
     total.absorb(t2);
     total.absorb(t3);
+    total.absorb(t4);
     total.sample(serde_json::to_value(Case { fam: "presence-sweep".into(), hdr: 0x0102_0304, specs: embed(SpecDesc { name: 3, bits: 1 << 31 | 1 << 32, var: 1 }, 3) }).unwrap());
     total.sample(serde_json::to_value(Case { fam: "spec-lists".into(), hdr: 1, specs: vec![shape(4), shape(0), shape(0)] }).unwrap());
     total.sample(json!({"note": "field bit numbering", "strings": (1..=LAST_STR).map(|b| format!("{}={}", b, field_name(b))).collect::<Vec<_>>(), "typed": (LAST_STR + 1..=N_BITS).map(|b| format!("{}={}", b, field_name(b))).collect::<Vec<_>>()}));
@@ -692,8 +705,12 @@ fn replay(_ctx: &Ctx, case: &Value) -> Vec<Violation> {
         Err(_) => return vec![],
     };
     let mut t = Tally::new();
+    let poisoned = c.fam == "after-failed-calls";
+    if poisoned {
+        props::poison::failing_calls();
+    }
     match judge(&c, &mut t) {
-        Some((sig, summary)) => vec![Violation { sig, summary, case: case.clone() }],
+        Some((sig, summary)) => vec![Violation { sig: if poisoned { format!("after-failed-calls:{}", sig) } else { sig }, summary, case: case.clone() }],
         None => vec![],
     }
 }
